@@ -422,6 +422,8 @@ def _probes():
     add("pass_eff_qsvd", lambda A: qs.pass_eff_qsvd(A, 1, oversample=2, n_passes=3), lambda c: [Q(c["A"])])
     add("quaternion_lu", lu.quaternion_lu, lambda c: [Q(c["Sys"])])
     add("quaternion_lu(return_p)", lambda A: lu.quaternion_lu(A, return_p=True), lambda c: [Q(c["Sys"])])
+    add("quaternion_lu(no usable pivot)", lu.quaternion_lu, lambda c: [Q(np.zeros_like(c["Sys"]))])
+    add("quaternion_lu(zero column)", lu.quaternion_lu, lambda c: [Q(c["Sys"] * (np.arange(c["Sys"].shape[1]) != 1)[None, :, None])])
     add("quaternion_modulus", lu.quaternion_modulus, lambda c: [Q(c["A"])])
     add("quaternion_triu", lu.quaternion_triu, lambda c: [Q(c["A"])])
     add("quaternion_tril", lu.quaternion_tril, lambda c: [Q(c["A"])])
@@ -519,7 +521,7 @@ def probes():
     return _PROBE_CACHE["p"]
 
 
-N_PROBES = 124   # upper bound used by the generator; indices are taken modulo the real table length
+N_PROBES = 126   # upper bound used by the generator; indices are taken modulo the real table length
 
 
 @st.composite
@@ -706,13 +708,19 @@ def check_mutation(case):
     h0 = _hash_args(args)
     np.random.seed(case["seed"])
     rs0 = np.random.get_state()
+    err0 = np.geterr()
     try:
         with contextlib.redirect_stdout(io.StringIO()):
             r1 = fn(*args)
     except Exception as e:  # noqa: BLE001  (in-domain rejection is C20's business, not C14's)
         out.label("raised:" + type(e).__name__)
+        out.true(f"{name}:numpy floating-point error mode unchanged (also when raising)", np.geterr() == err0,
+                 f"np.geterr() {err0} -> {np.geterr()}")
+        np.seterr(**err0)
         out.true(f"{name}:arguments untouched (even when raising)", _hash_args(args) == h0, "argument modified before raising")
         return out
+    out.true(f"{name}:numpy floating-point error mode unchanged", np.geterr() == err0, f"np.geterr() {err0} -> {np.geterr()}")
+    np.seterr(**err0)
     if name not in RANDOM_PROBES:
         rs1 = np.random.get_state()
         out.true(f"{name}:does not draw from the global random generator (deterministic routine)",
